@@ -143,6 +143,12 @@ type namedStrat struct {
 	Quiet int
 	Row   *reg.Strat // registry row for base strategies
 	Cfg   reg.Cfg
+	// PlusOne is the known-finding key when this strategy emits n+1 actions
+	// because of the Alligator / Smma shift-by-period finding: the strategy
+	// itself, Inverse over such a strategy (passes the stream through), or an
+	// And / Or / Majority / Split whose sub-strategies ALL do (the vote ends
+	// with the shortest sub-stream).
+	PlusOne string
 }
 
 // baseStrats returns the registry strategies at default and random
@@ -179,7 +185,8 @@ func baseStrats(ctx *run.Ctx, nrand int) []namedStrat {
 					name += " (after a first use)"
 				}
 			}
-			out = append(out, namedStrat{Name: name, New: mk, Warm: w, Quiet: w, Row: row, Cfg: cfg})
+			p1 := map[string]string{"trend.AlligatorStrategy": "trend.AlligatorStrategy:alligator-shift-by-period", "trend.SmmaStrategy": "trend.SmmaStrategy:smma-shift-by-period"}[row.Name]
+			out = append(out, namedStrat{Name: name, New: mk, Warm: w, Quiet: w, Row: row, Cfg: cfg, PlusOne: p1})
 		}
 	}
 	return out
@@ -220,12 +227,22 @@ func compoundStrats(ctx *run.Ctx, base []namedStrat, count int) []namedStrat {
 	r := gen.New(ctx.Seed, "compound")
 	pick := func() namedStrat { return base[r.Intn(len(base))] }
 	var out []namedStrat
+	plusOne := "" // set by the caller before add() for shapes that inherit the extra action
 	add := func(name string, warm int, f func() strategy.Strategy, quiet ...int) {
 		q := warm
 		if len(quiet) > 0 {
 			q = quiet[0]
 		}
-		out = append(out, namedStrat{Name: name, New: f, Warm: warm, Quiet: q})
+		out = append(out, namedStrat{Name: name, New: f, Warm: warm, Quiet: q, PlusOne: plusOne})
+		plusOne = ""
+	}
+	allPlus := func(xs ...namedStrat) string {
+		for _, x := range xs {
+			if x.PlusOne == "" {
+				return ""
+			}
+		}
+		return xs[0].PlusOne
 	}
 	for i := 0; i < count; i++ {
 		a, b, c := pick(), pick(), pick()
@@ -233,18 +250,23 @@ func compoundStrats(ctx *run.Ctx, base []namedStrat, count int) []namedStrat {
 		w3 := max(w2, c.Warm)
 		q2 := min(a.Warm, b.Warm)
 		q3 := min(q2, c.Warm)
+		plusOne = allPlus(a, b)
 		add(fmt.Sprintf("strategy.AndStrategy (%s | %s)", a.Name, b.Name), w2, func() strategy.Strategy {
 			return strategy.NewAndStrategy("and", a.New(), b.New())
 		})
+		plusOne = allPlus(a, b, c)
 		add(fmt.Sprintf("strategy.OrStrategy (%s | %s | %s)", a.Name, b.Name, c.Name), w3, func() strategy.Strategy {
 			return strategy.NewOrStrategy("or", a.New(), b.New(), c.New())
 		}, q3)
+		plusOne = allPlus(a, b, c)
 		add(fmt.Sprintf("strategy.MajorityStrategy (%s | %s | %s)", a.Name, b.Name, c.Name), w3, func() strategy.Strategy {
 			return strategy.NewMajorityStrategyWith("majority", []strategy.Strategy{a.New(), b.New(), c.New()})
 		}, q3)
+		plusOne = allPlus(a, b)
 		add(fmt.Sprintf("strategy.SplitStrategy (%s | %s)", a.Name, b.Name), w2, func() strategy.Strategy {
 			return strategy.NewSplitStrategy(a.New(), b.New())
 		}, q2)
+		plusOne = a.PlusOne
 		add(fmt.Sprintf("decorator.InverseStrategy (%s)", a.Name), a.Warm, func() strategy.Strategy { return decorator.NewInverseStrategy(a.New()) })
 		add(fmt.Sprintf("decorator.NoLossStrategy (%s)", b.Name), b.Warm, func() strategy.Strategy { return decorator.NewNoLossStrategy(b.New()) })
 		add(fmt.Sprintf("decorator.StopLossStrategy (%s)", c.Name), c.Warm, func() strategy.Strategy { return decorator.NewStopLossStrategy(c.New(), 0.05) })
@@ -267,13 +289,27 @@ func compoundStrats(ctx *run.Ctx, base []namedStrat, count int) []namedStrat {
 			}
 			return l
 		}
+		var pairs [][2]int // AllAndStrategies / AllSplitStrategies enumerate ordered pairs of distinct elements
+		for a := range four {
+			for b := range four {
+				if a != b {
+					pairs = append(pairs, [2]int{a, b})
+				}
+			}
+		}
 		for i := range strategy.AllAndStrategies(mk()) {
 			i := i
+			if i < len(pairs) {
+				plusOne = allPlus(four[pairs[i][0]], four[pairs[i][1]])
+			}
 			add(fmt.Sprintf("strategy.AllAndStrategies[%d] of (%s | %s | %s | %s)", i, four[0].Name, four[1].Name, four[2].Name, four[3].Name),
 				max(four[0].Warm, four[1].Warm, four[2].Warm, four[3].Warm), func() strategy.Strategy { return strategy.AllAndStrategies(mk())[i] }, 0)
 		}
 		for i := range strategy.AllSplitStrategies(mk()) {
 			i := i
+			if i < len(pairs) {
+				plusOne = allPlus(four[pairs[i][0]], four[pairs[i][1]])
+			}
 			add(fmt.Sprintf("strategy.AllSplitStrategies[%d] of (%s | %s | %s | %s)", i, four[0].Name, four[1].Name, four[2].Name, four[3].Name),
 				max(four[0].Warm, four[1].Warm, four[2].Warm, four[3].Warm), func() strategy.Strategy { return strategy.AllSplitStrategies(mk())[i] }, 0)
 		}
